@@ -20,6 +20,8 @@ PROPS = {'charge': ('float', ()), 'vel': ('float', (3,)), 'tag': ('int', ()), 's
          'flag': ('bool', ())}
 SYMS = ['Al', 'Cu', 'Fe', 'Ni']
 DEFAULT_ATOL = 0.01
+# one angstrom expressed in each length unit the caller may switch to (own table, not atomman's)
+LENGTH_UNITS = {'angstrom': 1.0, 'nm': 0.1, 'um': 1e-4, 'cm': 1e-8, 'm': 1e-10}
 KIND_FN = {'v': 'vacancy', 'i': 'interstitial', 's': 'substitutional', 'db': 'dumbbell'}
 
 
@@ -85,7 +87,7 @@ class PointEngine(Engine):
     expected_probes = ['history_len_ge_3', 'select_by_image', 'select_by_rel', 'select_negative_id', 'refused_absent',
                        'refused_ambiguous', 'refused_occupied', 'refused_occupied_image', 'allowed_nonperiodic_image',
                        'differential_alternatives', 'kwargs_given', 'origin_nonzero_scaled_db', 'one_atom_system',
-                       'integer_pos_input', 'old_id_composed', 'scribbled_results']
+                       'integer_pos_input', 'old_id_composed', 'scribbled_results', 'working_units_changed']
     rule = ('Each run builds a base System (LAMMPS-oriented or rotated cell, any origin, any periodicity, 1-24 atoms with '
             'pairwise periodic separation >= 0.5 A, optionally one deliberately ambiguous pair 0.3*atol apart, 1-3 atom '
             'types, 0-3 extra per-atom properties of rank 0-2, optionally integer lattice coordinates) and applies a '
@@ -96,7 +98,10 @@ class PointEngine(Engine):
             'lattice-image distances whether the site is unique / absent / ambiguous / occupied; sites between 0.6 and '
             '1.6 atol are not generated. Every successful insertion is repeated through every other applicable selection '
             'method and the results compared (differential), then the alternative results are scribbled on. After every '
-            'operation ALL systems of the history are compared bit-for-bit with their snapshots. Non-trivial run: a '
+            'operation ALL systems of the history are compared bit-for-bit with their snapshots. One operation in twenty '
+            'changes the working length unit (angstrom, nm, um, cm, m) between insertions: stored numbers keep their value, '
+            'the documented default tolerance of 0.01 angstrom becomes another number, and every decision of the model uses it. '
+            'old_id must be unique in every result. Non-trivial run: a '
             'refused/ill-formed call or a scribble fired, or >= 2 successful insertions. distinct = distinct (previous '
             'kind, kind, selection, via, outcome, history depth, has-props, pbc pattern) signatures.')
     tolerances = {'copied cells': 'bit-exact', 'requested positions / dumbbell shifts given box-relative': '1e-9 * cell size',
@@ -164,7 +169,11 @@ class PointEngine(Engine):
         if m.n == 1:
             ctx.probe('one_atom_system')
         ctx.ev('init', 'base', {'n': m.n, 'V': V, 'o': o, 'pbc': m.pbc, 'props': sorted(m.reg)})
-        return {'cfg': cfg, 'hist': [m], 'cur': 0, 'succ': 0, 'prev': 'init'}
+        self._atol0 = DEFAULT_ATOL
+        return {'cfg': cfg, 'hist': [m], 'cur': 0, 'succ': 0, 'prev': 'init', 'atol0': DEFAULT_ATOL, 'length': 'angstrom'}
+
+    def cleanup(self, st):
+        am.unitconvert.reset_units(length='angstrom', mass='amu', energy='eV', charge='e')
 
     @staticmethod
     def _draw(r, cls, ts):
@@ -185,14 +194,16 @@ class PointEngine(Engine):
         if st['succ'] >= 6 and r.random() < 0.5:
             return None
         scen = ctx.wchoice([('normal', 6), ('absent', 1), ('ambiguous', 1.2 if st['cfg']['pair'] else 0.2), ('occupied', 1),
-                            ('illformed', 0.8), ('goto', 0.4)])
+                            ('illformed', 0.8), ('goto', 0.4), ('units', 0.5)])
+        if scen == 'units':
+            return {'op': 'units', 'length': r.choice([u for u in LENGTH_UNITS if u != st['length']])}
         if scen == 'goto':
             return {'op': 'goto', 'to': r.randrange(len(st['hist']))}
         if scen == 'illformed':
             return {'op': 'illformed', 'what': r.choice(['bad_id', 'same_type', 'pos_and_id', 'neither', 'bad_type', 'v_with_kwargs']),
                     'kind': r.choice(['v', 's', 'db'])}
         atol = r.choice([None, None, 0.05, 0.002])
-        av = DEFAULT_ATOL if atol is None else atol
+        av = st['atol0'] if atol is None else atol
         kind = r.choice(['v', 'i', 's', 'db'])
         if scen == 'occupied':
             kind = 'i'
@@ -257,6 +268,18 @@ class PointEngine(Engine):
     # ------------------------------------------------------------------
     def apply(self, ctx, st, op):
         k = op['op']
+        if k == 'units':
+            # the caller changes the working units between two insertions: every stored number keeps its value, what
+            # "0.01 angstrom" (the documented default tolerance) is as a number changes
+            if op['length'] not in LENGTH_UNITS:
+                return
+            am.unitconvert.reset_units(length=op['length'], mass='amu', energy='eV', charge='e')
+            st['length'] = op['length']
+            st['atol0'] = self._atol0 = DEFAULT_ATOL * LENGTH_UNITS[op['length']]
+            ctx.fault('working_units_changed')
+            ctx.probe('working_units_changed')
+            ctx.ev('op', 'units', {'length': op['length']}, {'atol0': st['atol0']})
+            return
         if k == 'goto':
             if 0 <= op['to'] < len(st['hist']):
                 st['cur'] = op['to']
@@ -316,7 +339,7 @@ class PointEngine(Engine):
         kind = op['kind']
         if kind not in KIND_FN:
             return None
-        av = DEFAULT_ATOL if op['atol'] is None else op['atol']
+        av = st['atol0'] if op['atol'] is None else op['atol']
         P = np.array(op['P'], dtype=float)
         rel = np.array(op['rel'], dtype=float)
         sel = op['sel']
@@ -541,7 +564,7 @@ class PointEngine(Engine):
         periodic = [i for i in range(3) if m.pbc[i]]
         alts = [('id', {'ptd_id': int(site)}), ('negid', {'ptd_id': int(site) - m.n})]
         if m.n > 0:
-            near, border = m.matches(P, DEFAULT_ATOL if op['atol'] is None else op['atol'])
+            near, border = m.matches(P, self._atol0 if op['atol'] is None else op['atol'])
             if near == [site] and not border:
                 alts.append(('pos', {'pos': P.copy()}))
                 alts.append(('rel', {'pos': geom.cart_to_rel(m.V, m.o, P), 'scale': True}))
